@@ -5,6 +5,7 @@ enumeration `Ref.assignments`, the arg-min/arg-max fold `Ref.best`, and the case
 import Rooc.Ref
 import Rooc.Proofs.ExpVars
 import Rooc.Proofs.Field
+import Rooc.Proofs.ExtArith
 namespace Rooc
 namespace Ref
 open Sem Exp
@@ -183,9 +184,6 @@ end generic2
 
 section field
 variable {K : Type} [Field K] [LinearOrder K] [IsStrictOrderedRing K] [FloorRing K]
-
-@[simp] theorem kzero_eq : (kzero : K) = 0 := by simp [kzero]
-@[simp] theorem kone_eq : (kone : K) = 1 := by simp [kone]
 
 /-- a value in a discrete domain is one of the enumerated values. -/
 theorem domainValues_complete {ty : VarType (Ext K)} {vs : List K} (h : domainValues ty = some vs)
